@@ -4,6 +4,7 @@ import CookModel.Lemmas.SerdeAudit
 import CookModel.Lemmas.SerdeMods
 import CookModel.Lemmas.SerdeModsParsed
 import CookModel.Lemmas.SerdeEq
+import CookModel.Lemmas.FracInv
 /-
   C15  Recipes survive serialization.
 
@@ -463,4 +464,65 @@ example : (∀ m, metaBeq m m = true) ∧ eqScalableRecipe metaBeq Serde.exRecip
 example : eqNumber (Number.fraction 0 1 2 (0 : Rat)) (.regular (1/2)) = true ∧
     eqQuantity eqScalable (⟨.linear (.number (.regular (1 : Rat))), some ['g']⟩ : Quantity (ScalableValue Rat))
       ⟨.linear (.number (.regular 1)), some ['k', 'g']⟩ = false := by decide +kernel
+
+-- ===== w6numeric =====
+/-! ## "no NaN value" for the numbers the code builds (wave `w6numeric`, Lemmas/FracInv.lean)
+
+  `RecipeSelfEq` — the premise of `C15_eq_reflexive` / `C15_roundtrip_equal` — asks that no number has a NaN value.  For a
+  `Number::Fraction` the value is `whole + err + num/den`, NaN for `0/0`.  The modelled code builds fractions at three
+  places only: `fracNum` / `mixedNum` of the parser and `new_approx`.  The theorems below give, for EVERY arithmetic
+  instance (so for f64), the invariant `Number.FracOK` (`den ≠ 0`, parts fit `u32`, error not NaN) at each of them, the
+  shape `num < den`, `den ∈ DENOMS` for `new_approx`, and — under the IEEE-754 facts `IeeeHyp` — "value not NaN". -/
+
+/-- the IEEE-754 facts the statements below use (`IeeeHyp`, spelled out in Lemmas/FracInv.lean) are theorems over ℚ -/
+theorem C15_ieee_hypotheses : IeeeHyp Rat := fi_ieeeHyp_rat
+
+/-- **A stored fraction with `den ≠ 0`, `u32` parts and a non-NaN error has a value that is not NaN** (`n == n`);
+    a plain number is `==` to itself iff it is not NaN. -/
+theorem C15_fraction_invariant_no_nan {α} [Arith α] (H : IeeeHyp α) (n : Number α) (hn : n.FracOK)
+    (hr : ∀ v, n = .regular v → notNaN v) : numberSelfEq n :=
+  fi_numberSelfEq H n hn hr
+
+/-- **Parser, `new_approx`, `linear_scale`: no NaN value is built — PARTIAL.**  For every arithmetic instance satisfying
+    the IEEE facts: (1) every value the parser's numeric reader (`numeric_value` / `range_value`, the only place where the
+    parser builds numbers) returns has fractions with `den ≠ 0`, parts within `u32`, error `0`, and no NaN value;
+    (2) every number `new_approx` returns on the table the code builds (`mkTable α DENOMS`) with a whole-part limit that
+    fits `u32` satisfies the same invariant, has `num = 0 ∧ den = 1` or `0 < num < den ≤ maxDen`, `den ∈ DENOMS`, and
+    no NaN value — hence every number `try_fraction` / `fit_fraction` writes; (3) `linear_scale` of finite values by a
+    finite factor builds no NaN value.
+    MISSING for `C15_parsed_no_nan` proper: the sweep that carries (1) through the event stream and the collector into
+    every quantity of the recipe `parse` returns (values are only copied there — the pattern of
+    `C15_parsed_recipe_mods_known`), and the affine arithmetic of `convert` (`(v + d)·r / r' − d'` is not NaN for finite
+    `v` and non-zero ratios). -/
+theorem C15_parsed_no_nan_partial {α} [Arith α] (H : IeeeHyp α) :
+    (∀ (rangeExt : Bool) (tokens : List Tok) (v : Value α),
+      numOrRange (α := α) rangeExt tokens = some (.ok v) → v.FracOK ∧ valueSelfEq v) ∧
+    (∀ (v acc : α) (maxDen maxWhole : Nat) (n : Number α), maxWhole ≤ u32Max →
+      newApprox (mkTable α Gen.DENOMS) v acc maxDen maxWhole = some n →
+        n.FracOK ∧ n.ApproxShape Gen.DENOMS maxDen ∧ numberSelfEq n) ∧
+    (∀ (n : Number α) (f : α) (v' : Value α), Arith.isFinite n.value = true → Arith.isFinite f = true →
+      linearScale (.number n) f = some v' → valueSelfEq v') := by
+  refine ⟨?_, ?_, ?_⟩
+  · intro rangeExt tokens v h
+    have hp := fi_numOrRange H rangeExt tokens v h
+    refine ⟨?_, fi_parsedOK_selfEq H v hp⟩
+    cases v with
+    | number n => exact hp.1
+    | range s e => exact ⟨hp.1.1, hp.2.1⟩
+    | text t => trivial
+  · intro v acc maxDen maxWhole n hmw h
+    have hden : ∀ d ∈ Gen.DENOMS, d ≤ u32Max := by decide
+    obtain ⟨h1, h2, _⟩ := fi_newApprox H Gen.DENOMS _ v acc maxDen maxWhole (fracm_mkTable_ok α Gen.DENOMS) hden hmw n h
+    exact ⟨h1, h2, fi_newApprox_selfEq H Gen.DENOMS _ v acc maxDen maxWhole (fracm_mkTable_ok α Gen.DENOMS) hden hmw n h⟩
+  · intro n f v' hn hf h
+    exact fi_linearScale H (.number n) v' f hf hn h
+
+/-- the statements speak about something: `1/2` is read as the fraction `0 1/2` (error 0), `1/0` is refused;
+    `new_approx(0.3334)` on the ℚ-built table is `1/3` with a small error -/
+example : fracNum (α := Rat) ⟨.int, ['1'], 0⟩ ⟨.int, ['2'], 2⟩ = .ok (.fraction 0 1 2 0) ∧
+    (fracNum (α := Rat) ⟨.int, ['1'], 0⟩ ⟨.int, ['0'], 2⟩).toOption = none := by decide +kernel
+example : newApprox (mkTable Rat Gen.DENOMS) (3334/10000 : Rat) (5/100) 4 10 = some (.fraction 0 1 3 (1/15000)) := by
+  decide +kernel
+-- ===== end w6numeric =====
+
 end Cook
